@@ -1550,7 +1550,9 @@ impl Formatter {
       if self.html {
         lis = format!("{}<li class=\"mech-ol-list-item\">{}</li>",lis,it);
       } else {
-        lis = format!("{}{}.{}\n",lis,num.to_string(),it.trim_end_matches('\n'));
+        // the item number is a number literal: written by the literal emitter (Display prints `1e3` as `1.-/10^3`)
+        let n = self.number(num);
+        lis = format!("{}{}.{}\n",lis,n,it.trim_end_matches('\n'));
       }
       match sublist {
         Some(sublist) => {
